@@ -108,7 +108,7 @@ Proof. intros A x o ->. simpl. auto. Qed.
 Theorem obs_local : forall h1 h2 S o, closed h1 S -> S o -> agree S h1 h2 -> obs h2 o = obs h1 o.
 Proof.
   intros h1 h2 S o Hc Ho Ha. unfold obs. rewrite (Ha o Ho).
-  destruct (get h1 o) as [| | | | | |cls sc al bl co ch we at_] eqn:Eo; auto.
+  destruct (get h1 o) as [| | | | | |cls sc al bl co ch we at_|] eqn:Eo; auto.
   destruct (Hc o Ho) as [_ Hp]. rewrite Eo in Hp. simpl in Hp.
   assert (Sal : S al) by (apply Hp; left; auto).
   assert (Sat : S at_) by (apply Hp; right; left; auto).
@@ -338,15 +338,16 @@ Proof. intros h Hr l Hl p Hp. apply (Hr l Hl p Hp). Qed.
 Lemma nth_app_at : forall A (l1 l2 : list A) k j d, length l1 = k -> nth (k + j) (l1 ++ l2) d = nth j l2 d.
 Proof. intros A l1 l2 k j d <-. apply app_nth2_plus. Qed.
 
-Lemma get_segs : forall h hd A AD Bc BD n m,
+Lemma get_segs : forall h hd A AD Bc BD V n m,
   length hd = 7 -> length A = n -> length AD = n -> length Bc = m -> length BD = m ->
-  (forall k, k < 7 -> get (h ++ hd ++ A ++ AD ++ Bc ++ BD) (length h + k) = nth k hd CFree) /\
-  (forall j, j < n -> get (h ++ hd ++ A ++ AD ++ Bc ++ BD) (length h + 7 + j) = nth j A CFree) /\
-  (forall j, j < n -> get (h ++ hd ++ A ++ AD ++ Bc ++ BD) (length h + 7 + n + j) = nth j AD CFree) /\
-  (forall j, j < m -> get (h ++ hd ++ A ++ AD ++ Bc ++ BD) (length h + 7 + n + n + j) = nth j Bc CFree) /\
-  (forall j, j < m -> get (h ++ hd ++ A ++ AD ++ Bc ++ BD) (length h + 7 + n + n + m + j) = nth j BD CFree).
+  (forall k, k < 7 -> get (h ++ hd ++ A ++ AD ++ Bc ++ BD ++ V) (length h + k) = nth k hd CFree) /\
+  (forall j, j < n -> get (h ++ hd ++ A ++ AD ++ Bc ++ BD ++ V) (length h + 7 + j) = nth j A CFree) /\
+  (forall j, j < n -> get (h ++ hd ++ A ++ AD ++ Bc ++ BD ++ V) (length h + 7 + n + j) = nth j AD CFree) /\
+  (forall j, j < m -> get (h ++ hd ++ A ++ AD ++ Bc ++ BD ++ V) (length h + 7 + n + n + j) = nth j Bc CFree) /\
+  (forall j, j < m -> get (h ++ hd ++ A ++ AD ++ Bc ++ BD ++ V) (length h + 7 + n + n + m + j) = nth j BD CFree) /\
+  (forall j, get (h ++ hd ++ A ++ AD ++ Bc ++ BD ++ V) (length h + 7 + n + n + m + m + j) = nth j V CFree).
 Proof.
-  intros h hd A AD Bc BD n m Hhd HA HAD HBc HBD. repeat split; intros j Hj.
+  intros h hd A AD Bc BD V n m Hhd HA HAD HBc HBD. repeat split; intros j; try intros Hj.
   - rewrite get_app_new. apply app_nth1. lia.
   - replace (length h + 7 + j) with (length h + (7 + j)) by lia. rewrite get_app_new.
     rewrite (nth_app_at _ hd) by auto. apply app_nth1. lia.
@@ -357,7 +358,10 @@ Proof.
     apply app_nth1. lia.
   - replace (length h + 7 + n + n + m + j) with (length h + (7 + (n + (n + (m + j))))) by lia. rewrite get_app_new.
     rewrite (nth_app_at _ hd) by auto. rewrite (nth_app_at _ A) by auto. rewrite (nth_app_at _ AD) by auto.
-    rewrite (nth_app_at _ Bc) by auto. reflexivity.
+    rewrite (nth_app_at _ Bc) by auto. apply app_nth1. lia.
+  - replace (length h + 7 + n + n + m + m + j) with (length h + (7 + (n + (n + (m + (m + j)))))) by lia. rewrite get_app_new.
+    rewrite (nth_app_at _ hd) by auto. rewrite (nth_app_at _ A) by auto. rewrite (nth_app_at _ AD) by auto.
+    rewrite (nth_app_at _ Bc) by auto. rewrite (nth_app_at _ BD) by auto. reflexivity.
 Qed.
 
 (* the result of a copy, spelled out *)
@@ -378,23 +382,27 @@ Definition p_hd (r : row) (g : given) (d : Z) (h : heap) (P : parts) : list cell
    alist_cell_of r (new_atoms_of r (base + 7) (p_atoms h P));
    blist_cell_of r (p_bl P) (new_bonds_of (brow_of r) (base + 7 + p_n h P + p_n h P) (p_bonds h P));
    arr_cell h (r_coords r) (p_co P) (g_coords g); arr_cell h (r_charges r) (p_ch P) (g_charges g);
-   arr_cell h (r_weights r) (p_we P) (g_weights g); dict_cell h (r_attrib r) (p_at P)].
+   arr_cell h (r_weights r) (p_we P) (g_weights g);
+   dict_cell h (r_attrib r) (r_vals r) (p_at P) (base + 7 + p_n h P + p_n h P + p_m h P + p_m h P)].
 Definition p_A r h P := atom_cells r h (length h) (length h + 7 + p_n h P) (p_atoms h P).
-Definition p_AD r h P := adict_cells r h (p_atoms h P).
+Definition p_vb h P := length h + 7 + p_n h P + p_n h P + p_m h P + p_m h P.
+Definition p_AD r h P := adict_cells r h (p_vb h P + 1) (p_atoms h P).
 Definition p_Bc r h P :=
   bond_cells (brow_of r) h (length h) (length h + 7 + p_n h P + p_n h P + p_m h P) (p_atoms h P)
              (new_atoms_of r (length h + 7) (p_atoms h P)) (p_bonds h P).
-Definition p_BD r h P := bdict_cells (brow_of r) h (p_bonds h P).
+Definition p_BD r h P := bdict_cells (brow_of r) h (p_vb h P + 1 + p_n h P) (p_bonds h P).
+Definition p_V r h P := store_cell h (r_attrib r) (r_vals r) (p_at P) :: astore_cells r h (p_atoms h P)
+                        ++ bstore_cells (brow_of r) h (p_bonds h P).
 
 Lemma copy_row_inv : forall r g d h o h' o',
   copy_row r g d h o = Some (h', o') ->
   exists P, get h o = CMol (p_cls P) (p_sc P) (p_al P) (p_bl P) (p_co P) (p_ch P) (p_we P) (p_at P)
     /\ o' = length h
     /\ (b_ends (brow_of r) = ERemap -> ends_found h (p_atoms h P) (p_bonds h P) = true)
-    /\ h' = h ++ p_hd r g d h P ++ p_A r h P ++ p_AD r h P ++ p_Bc r h P ++ p_BD r h P.
+    /\ h' = h ++ p_hd r g d h P ++ p_A r h P ++ p_AD r h P ++ p_Bc r h P ++ p_BD r h P ++ p_V r h P.
 Proof.
   intros r g d h o h' o' H. unfold copy_row in H.
-  destruct (get h o) as [| | | | | |cls sc al bl co ch we at_] eqn:Eo; try discriminate.
+  destruct (get h o) as [| | | | | |cls sc al bl co ch we at_|] eqn:Eo; try discriminate.
   exists (mk_parts cls sc al bl co ch we at_). cbv zeta in H.
   destruct (b_ends (brow_of r)) eqn:Ee.
   - destruct (ends_found h (items_of h al) match bl with Some l => items_of h l | None => [] end) eqn:Ef;
@@ -411,6 +419,10 @@ Proof.
   intros. unfold p_A, p_AD, p_Bc, p_BD, atom_cells, adict_cells, bond_cells, bdict_cells, p_n, p_m.
   rewrite !length_mapi. auto.
 Qed.
+Lemma p_V_length : forall r h P, length (p_V r h P) = 1 + p_n h P + p_m h P.
+Proof.
+  intros. unfold p_V, astore_cells, bstore_cells, p_n, p_m. simpl. rewrite app_length, !length_mapi. lia.
+Qed.
 
 (* ------------------------------------------------------------------ copy_row: independence *)
 Lemma st_copied_eq : forall s, st_copied s = true -> s = Copied.
@@ -421,8 +433,13 @@ Lemma arr_loc_fresh : forall s src f p, ast_fresh s = true -> In p (olist (arr_l
 Proof. destruct s; simpl; try congruence; intros [x|] f p _ H; simpl in H; intuition. Qed.
 Lemma arr_cell_ptrs : forall h s src g, ptrs (arr_cell h s src g) = [].
 Proof. intros h s src g. unfold arr_cell. destruct s; auto. destruct (oarr h src); auto. Qed.
-Lemma dict_cell_ptrs : forall h s src, ptrs (dict_cell h s src) = [].
-Proof. intros h s src. unfold dict_cell. destruct s; auto. destruct (dict_of h src); auto. Qed.
+Lemma dict_cell_ptrs : forall h s vs src f, ptrs (dict_cell h s vs src f) = [].
+Proof. intros h s vs src f. unfold dict_cell. destruct s; auto. destruct (get h src); auto. Qed.
+Lemma store_cell_ptrs : forall h s vs src, ptrs (store_cell h s vs src) = [].
+Proof.
+  intros h s vs src. unfold store_cell, val_cell. destruct s; auto. destruct vs; auto.
+  destruct (vals_of h src); auto. destruct (get h l); auto.
+Qed.
 
 Lemma row_indep_inv : forall r, row_indep r = true ->
   r_alist r = Copied /\ r_atom r = Copied /\ st_fresh (r_aattrib r) = true
@@ -466,13 +483,13 @@ Qed.
 
 Lemma news_fresh : forall r g d h P, row_indep r = true ->
   (b_ends (brow_of r) = ERemap -> ends_found h (p_atoms h P) (p_bonds h P) = true) ->
-  forall c, In c (p_hd r g d h P ++ p_A r h P ++ p_AD r h P ++ p_Bc r h P ++ p_BD r h P) ->
+  forall c, In c (p_hd r g d h P ++ p_A r h P ++ p_AD r h P ++ p_Bc r h P ++ p_BD r h P ++ p_V r h P) ->
   forall p, In p (ptrs c) ->
     length h <= p < length h + (7 + p_n h P + p_n h P + p_m h P + p_m h P).
 Proof.
   intros r g d h P Hind Hends c Hc p Hp.
   destruct (row_indep_inv r Hind) as [Hal [Hat [Haa [Hb [Hco [Hch [Hwe Hatt]]]]]]].
-  rewrite !in_app_iff in Hc. destruct Hc as [Hc|[Hc|[Hc|[Hc|Hc]]]].
+  rewrite !in_app_iff in Hc. destruct Hc as [Hc|[Hc|[Hc|[Hc|[Hc|Hc]]]]].
   - (* the seven fixed slots *)
     unfold p_hd in Hc. simpl in Hc.
     destruct Hc as [<-|[<-|[<-|[<-|[<-|[<-|[<-|[]]]]]]]].
@@ -506,7 +523,7 @@ Proof.
     unfold p_Bc, bond_cells in Hc. apply In_mapi in Hc. destruct Hc as [j [b [Hj [Hnb ->]]]].
     unfold brow_of in *. destruct (r_bonds r) as [br|] eqn:Eb; [|simpl in Hp; contradiction].
     destruct Hb as [_ [Hbo [Hba Hbe]]]. rewrite Hbo in Hp.
-    destruct (get h b) as [| | | |a1 a2 pay dd par| |] eqn:Eg; simpl in Hp; try contradiction.
+    destruct (get h b) as [| | | |a1 a2 pay dd par| | |] eqn:Eg; simpl in Hp; try contradiction.
     destruct (ends_found_In h _ _ b a1 a2 pay dd par (Hends Hbe) (nth_error_In _ _ Hnb) Eg) as [i1 [i2 [H1 H2]]].
     rewrite Hbe in Hp. unfold new_atoms_of in Hp. rewrite Hat in Hp.
     rewrite (remap_copied _ _ _ _ H1), (remap_copied _ _ _ _ H2) in Hp.
@@ -517,6 +534,17 @@ Proof.
     destruct (b_obj (brow_of r)); simpl in Hp; try contradiction.
     destruct (get h b); simpl in Hp; try contradiction.
     rewrite dict_cell_ptrs in Hp. destruct Hp.
+  - (* the stores of attribute values hold no pointer *)
+    unfold p_V in Hc. destruct Hc as [<-|Hc]; [rewrite store_cell_ptrs in Hp; destruct Hp|].
+    apply in_app_iff in Hc. destruct Hc as [Hc|Hc].
+    + unfold astore_cells in Hc. apply In_mapi in Hc. destruct Hc as [j [a [Hj [_ ->]]]].
+      destruct (r_atom r); simpl in Hp; try contradiction.
+      destruct (get h a); simpl in Hp; try contradiction.
+      rewrite store_cell_ptrs in Hp. destruct Hp.
+    + unfold bstore_cells in Hc. apply In_mapi in Hc. destruct Hc as [j [b [Hj [_ ->]]]].
+      destruct (b_obj (brow_of r)); simpl in Hp; try contradiction.
+      destruct (get h b); simpl in Hp; try contradiction.
+      rewrite store_cell_ptrs in Hp. destruct Hp.
 Qed.
 
 (* Independence: the copy lives in the fresh region, the source's cells are untouched and closed *)
@@ -530,16 +558,17 @@ Proof.
   intros r g d h o h' o' Hwf Hind Hc.
   destruct (copy_row_inv _ _ _ _ _ _ _ Hc) as [P [Hget [Ho' [Hends Hh']]]].
   destruct (p_lengths r g d h P) as [L1 [L2 [L3 [L4 L5]]]].
-  assert (Hlen : length h' = length h + (7 + p_n h P + p_n h P + p_m h P + p_m h P)).
-  { rewrite Hh'. rewrite !app_length. rewrite L1, L2, L3, L4, L5. lia. }
+  pose proof (p_V_length r h P) as L6.
+  assert (Hlen : length h' = length h + (7 + p_n h P + p_n h P + p_m h P + p_m h P + (1 + p_n h P + p_m h P))).
+  { rewrite Hh'. rewrite !app_length. rewrite L1, L2, L3, L4, L5, L6. lia. }
   split; [exact Ho'|]. split; [lia|]. split.
   { intros l Hl. rewrite Hh'. apply get_app_old. exact Hl. }
   split.
   - intros l [Hl1 Hl2]. split; [exact Hl2|]. intros p Hp.
     replace l with (length h + (l - length h)) in Hp by lia. rewrite Hh' in Hp. rewrite get_app_new in Hp.
-    assert (Hin : In (nth (l - length h) (p_hd r g d h P ++ p_A r h P ++ p_AD r h P ++ p_Bc r h P ++ p_BD r h P) CFree)
-                     (p_hd r g d h P ++ p_A r h P ++ p_AD r h P ++ p_Bc r h P ++ p_BD r h P)).
-    { apply nth_In. rewrite !app_length. rewrite L1, L2, L3, L4, L5. lia. }
+    assert (Hin : In (nth (l - length h) (p_hd r g d h P ++ p_A r h P ++ p_AD r h P ++ p_Bc r h P ++ p_BD r h P ++ p_V r h P) CFree)
+                     (p_hd r g d h P ++ p_A r h P ++ p_AD r h P ++ p_Bc r h P ++ p_BD r h P ++ p_V r h P)).
+    { apply nth_In. rewrite !app_length. rewrite L1, L2, L3, L4, L5, L6. lia. }
     pose proof (news_fresh r g d h P Hind Hends _ Hin p Hp) as Hb. lia.
   - intros l Hl. split; [lia|]. intros p Hp. rewrite Hh' in Hp. rewrite get_app_old in Hp by exact Hl.
     apply (Hwf l Hl p Hp).
@@ -578,10 +607,10 @@ Proof.
   unfold arr_of. rewrite H. unfold arr_of. destruct (get h l); auto.
 Qed.
 
-Lemma dict_copied : forall h h' src f,
-  get h' f = dict_cell h Copied src -> dict_of h' f = dict_of h src.
+Lemma dict_copied : forall h h' vs src f fr,
+  get h' f = dict_cell h Copied vs src fr -> dict_of h' f = dict_of h src.
 Proof.
-  intros h h' src f H. unfold dict_of at 1. rewrite H. simpl. destruct (dict_of h src); auto.
+  intros h h' vs src f fr H. unfold dict_of. rewrite H. simpl. destruct (get h src); auto.
 Qed.
 
 Lemma atoms_ok_inv : forall r, atoms_ok r = true ->
@@ -619,7 +648,7 @@ Proof.
   intros r g d h o h' o' Hc.
   destruct (copy_row_inv _ _ _ _ _ _ _ Hc) as [P [Hget [Ho' [Hends Hh']]]].
   destruct (p_lengths r g d h P) as [L1 [L2 [L3 [L4 L5]]]].
-  destruct (get_segs h _ _ _ _ _ _ _ L1 L2 L3 L4 L5) as [G0 [GA [GAD [GB GBD]]]].
+  destruct (get_segs h _ _ _ _ _ (p_V r h P) _ _ L1 L2 L3 L4 L5) as [G0 [GA [GAD [GB [GBD _]]]]].
   rewrite <- Hh' in G0, GA, GAD, GB, GBD.
   assert (Groot : get h' (length h) = p_root r g d h P).
   { specialize (G0 0 ltac:(lia)). rewrite Nat.add_0_r in G0. exact G0. }
@@ -640,9 +669,9 @@ Proof.
     { intros j a Hn. assert (Hj : j < p_n h P) by (apply nth_error_Some; unfold p_atoms in *; congruence).
       unfold atom_obs. rewrite (GA j Hj). unfold p_A, atom_cells.
       rewrite nth_mapi with (d' := 0) by exact Hj. rewrite (nth_error_nth _ _ 0 Hn). rewrite Hat. simpl.
-      destruct (get h a) as [| | |p dd par| | |] eqn:Ea; auto.
+      destruct (get h a) as [| | |p dd par| | | |] eqn:Ea; auto.
       rewrite Haa, Hap. simpl. rewrite Nat.eqb_refl.
-      rewrite (dict_copied h h' dd).
+      erewrite (dict_copied h h' _ dd).
       - reflexivity.
       - rewrite (GAD j Hj). unfold p_AD, adict_cells. rewrite nth_mapi with (d' := 0) by exact Hj.
         rewrite (nth_error_nth _ _ 0 Hn). rewrite Hat, Ea, Haa. reflexivity. }
@@ -676,7 +705,7 @@ Proof.
     { intros j b Hn. assert (Hj : j < p_m h P) by (apply nth_error_Some; unfold p_m; congruence).
       unfold bond_obs. rewrite (GB j Hj). unfold p_Bc, bond_cells.
       rewrite nth_mapi with (d' := 0) by exact Hj. rewrite (nth_error_nth _ _ 0 Hn). rewrite Hbrow, Hbo. simpl.
-      destruct (get h b) as [| | | |a1 a2 p dd par| |] eqn:Eb; auto.
+      destruct (get h b) as [| | | |a1 a2 p dd par| | |] eqn:Eb; auto.
       rewrite Hbrow in Hends.
       destruct (ends_found_In h _ _ b a1 a2 p dd par (Hends Hbe) (nth_error_In _ _ Hn) Eb) as [i1 [i2 [H1 H2]]].
       rewrite Hbe, Hba, Hbp. unfold new_atoms_of. rewrite Hat.
@@ -686,7 +715,7 @@ Proof.
       replace (length h + 7 + i2) with (length h + 7 + (0 + i2)) by lia.
       rewrite !index_of_offset by (eapply index_of_lt; eauto).
       rewrite H1, H2.
-      rewrite (dict_copied h h' dd).
+      erewrite (dict_copied h h' _ dd).
       - reflexivity.
       - rewrite (GBD j Hj). unfold p_BD, bdict_cells. rewrite nth_mapi with (d' := 0) by exact Hj.
         rewrite (nth_error_nth _ _ 0 Hn). rewrite Hbrow, Hbo, Eb, Hba. reflexivity. }
@@ -703,7 +732,7 @@ Proof.
   { intros Hr. rewrite Hr. apply arr_copied with (g := g_charges g). rewrite (G0 4 ltac:(lia)). simpl. rewrite Hr. reflexivity. }
   split.
   { intros Hr. rewrite Hr. apply arr_copied with (g := g_weights g). rewrite (G0 5 ltac:(lia)). simpl. rewrite Hr. reflexivity. }
-  intros Hr. rewrite Hr. simpl. apply dict_copied. rewrite (G0 6 ltac:(lia)). simpl. rewrite Hr. reflexivity.
+  intros Hr. rewrite Hr. simpl. eapply dict_copied. rewrite (G0 6 ltac:(lia)). simpl. rewrite Hr. reflexivity.
 Qed.
 
 (* ------------------------------------------------------------------ a row that meets the specification *)
@@ -775,7 +804,7 @@ Lemma copy_route_row : forall rt r g d h o x,
   copy_route rt r g d h o = Some x -> exists g', copy_row r g' d h o = Some x.
 Proof.
   intros rt r g d h o x H. unfold copy_route in H.
-  destruct (get h o) as [| | | | | |cls sc al bl co ch we at_]; try discriminate.
+  destruct (get h o) as [| | | | | |cls sc al bl co ch we at_|]; try discriminate.
   eexists. exact H.
 Qed.
 
@@ -800,7 +829,7 @@ Proof.
   intros r g d h o h' o' Hc.
   destruct (copy_row_inv _ _ _ _ _ _ _ Hc) as [P [Hget [Ho' [Hends Hh']]]].
   destruct (p_lengths r g d h P) as [L1 [L2 [L3 [L4 L5]]]].
-  destruct (get_segs h _ _ _ _ _ _ _ L1 L2 L3 L4 L5) as [G0 _].
+  destruct (get_segs h _ _ _ _ _ (p_V r h P) _ _ L1 L2 L3 L4 L5) as [G0 _].
   rewrite <- Hh' in G0.
   assert (Groot : get h' (length h) = p_root r g d h P).
   { specialize (G0 0 ltac:(lia)). rewrite Nat.add_0_r in G0. exact G0. }
@@ -856,7 +885,7 @@ Proof.
   split; [exact Hsep|]. split; [exact Hdis|]. exists ob, ob'.
   do 5 (split; [assumption|]).
   unfold copy_route in Hc.
-  destruct (get h o) as [| | | | | |cls sc al bl co ch we at_] eqn:Eo; try discriminate.
+  destruct (get h o) as [| | | | | |cls sc al bl co ch we at_|] eqn:Eo; try discriminate.
   destruct (copy_scal _ _ _ _ _ _ _ Hc) as [ob1 [ob1' [Ho1 [Ho1' Hsc]]]].
   rewrite Ho in Ho1. inversion Ho1; subst ob1. rewrite Ho' in Ho1'. inversion Ho1'; subst ob1'.
   assert (Esc : o_scal ob = sc).
@@ -910,7 +939,8 @@ Theorem table_routes_sound : forall known t, table_ok known t = true ->
 Proof.
   intros known t Ht k r x Hl Hlone g h o h' o' Hwf Hc.
   unfold table_ok in Ht. apply andb_true_iff in Ht. destruct Ht as [_ Ht]. rewrite forallb_forall in Ht.
-  specialize (Ht _ (lookup_row_In _ _ _ _ Hl)). unfold entry_ok in Ht. rewrite Hlone in Ht.
+  specialize (Ht _ (lookup_row_In _ _ _ _ Hl)). unfold entry_ok in Ht.
+  apply andb_true_iff in Ht. destruct Ht as [Ht _]. rewrite Hlone in Ht.
   eapply copy_row_sound; eauto.
 Qed.
 
@@ -929,7 +959,8 @@ Theorem table_override_sound : forall known t, table_ok known t = true ->
 Proof.
   intros known t Ht k dd v x Hl Hlone g h o h' o' Hwf Hc.
   unfold table_ok in Ht. apply andb_true_iff in Ht. destruct Ht as [_ Ht]. rewrite forallb_forall in Ht.
-  specialize (Ht _ (lookup_row_In _ _ _ _ Hl)). unfold entry_ok in Ht. rewrite Hlone in Ht.
+  specialize (Ht _ (lookup_row_In _ _ _ _ Hl)). unfold entry_ok in Ht.
+  apply andb_true_iff in Ht. destruct Ht as [Ht _]. rewrite Hlone in Ht.
   eapply override_copy_sound; eauto.
 Qed.
 
@@ -1010,7 +1041,7 @@ Qed.
 Theorem compile_op_ok : forall h o x ps, compile_op h o x = Some ps -> prims_okb (reach h o) h ps = true.
 Proof.
   intros h o x ps H. unfold compile_op in H.
-  destruct (get h o) as [| | | | | |cls sc al bl co ch we at_] eqn:Eo; try discriminate.
+  destruct (get h o) as [| | | | | |cls sc al bl co ch we at_|] eqn:Eo; try discriminate.
   assert (Pal : In al (ptrs (get h o))) by (rewrite Eo; simpl; auto).
   assert (Pat : In at_ (ptrs (get h o))) by (rewrite Eo; simpl; auto).
   assert (Pbl : forall l, bl = Some l -> In l (ptrs (get h o))).
@@ -1023,13 +1054,13 @@ Proof.
   { intros l ->. rewrite Eo. simpl. right; right. rewrite !in_app_iff. simpl. auto. }
   destruct x as [j p|j p|i v|i v|i v|kv|j kv|j kv|s].
   - destruct (nth_error (items_of h al) j) as [a|] eqn:Ea; [|discriminate].
-    destruct (get h a) as [| | |p0 d par| | |] eqn:Eg; try discriminate. inversion H; subst ps.
+    destruct (get h a) as [| | |p0 d par| | | |] eqn:Eg; try discriminate. inversion H; subst ps.
     assert (Pa : In a (ptrs (get h al))) by (apply in_items_ptrs; eapply nth_error_In; eauto).
     apply write1_ok; [exact (reach2 h o al a Pal Pa)|].
     simpl. intros q [<-|[]]. apply (reach3 h o al a d Pal Pa). rewrite Eg. simpl. auto.
   - destruct bl as [l|]; [|discriminate].
     destruct (nth_error (items_of h l) j) as [b|] eqn:Eb; [|discriminate].
-    destruct (get h b) as [| | | |a1 a2 p0 d par| |] eqn:Eg; try discriminate. inversion H; subst ps.
+    destruct (get h b) as [| | | |a1 a2 p0 d par| | |] eqn:Eg; try discriminate. inversion H; subst ps.
     assert (Pb : In b (ptrs (get h l))) by (apply in_items_ptrs; eapply nth_error_In; eauto).
     apply write1_ok; [exact (reach2 h o l b (Pbl l eq_refl) Pb)|].
     simpl. intros q Hq. apply (reach3 h o l b q (Pbl l eq_refl) Pb). rewrite Eg. simpl. tauto.
@@ -1042,13 +1073,13 @@ Proof.
   - destruct (get h at_) eqn:Eg; try discriminate. inversion H; subst ps.
     apply write1_ok; [apply reach1; auto|]. simpl. tauto.
   - destruct (nth_error (items_of h al) j) as [a|] eqn:Ea; [|discriminate].
-    destruct (get h a) as [| | |p0 d par| | |] eqn:Eg; try discriminate.
+    destruct (get h a) as [| | |p0 d par| | | |] eqn:Eg; try discriminate.
     destruct (get h d) eqn:Ed; try discriminate. inversion H; subst ps.
     assert (Pa : In a (ptrs (get h al))) by (apply in_items_ptrs; eapply nth_error_In; eauto).
     apply write1_ok; [apply (reach3 h o al a d Pal Pa); rewrite Eg; simpl; auto|]. simpl. tauto.
   - destruct bl as [l|]; [|discriminate].
     destruct (nth_error (items_of h l) j) as [b|] eqn:Eb; [|discriminate].
-    destruct (get h b) as [| | | |a1 a2 p0 d par| |] eqn:Eg; try discriminate.
+    destruct (get h b) as [| | | |a1 a2 p0 d par| | |] eqn:Eg; try discriminate.
     destruct (get h d) eqn:Ed; try discriminate. inversion H; subst ps.
     assert (Pb : In b (ptrs (get h l))) by (apply in_items_ptrs; eapply nth_error_In; eauto).
     apply write1_ok; [apply (reach3 h o l b d (Pbl l eq_refl) Pb); rewrite Eg; simpl; auto|]. simpl. tauto.
